@@ -73,3 +73,47 @@ _r_sf = register
 def register(reg):  # noqa: F811
     _r_sf(reg)
     register_deredden(reg)
+
+
+def register_block_downsample(reg):
+    """FilterbankBlock.downsample: decimation by the REQUESTED method with the header describing the result.
+    stats.downsample_2d (np.mean / np.median over a reshaped 4-D view) is assumed: tile (a, b) of the result is
+    ds2(method, data, f1, f2, a, b), a deterministic function of the method name, the block and the tile."""
+    from pvc.contract import Arr2, Obj, Real, Tup
+    BL = "sigpyproc/block.py::"
+    ST = "sigpyproc/core/stats.py::"
+    c = Contract(ST + "downsample_2d", props=["C14"], trusted=True,
+                 trusted_reason="np.mean / np.median over a reshaped 4-D view (outside the subset; compared with per-tile "
+                                "float64 means/medians by the bounded driver)",
+                 params={"array": Arr2("real", "f4"), "factors": Tup([Int(1), Int(1)]), "method": Str()},
+                 requires=["factors[0] >= 1 and factors[1] >= 1"],
+                 raises=[Raises("ValueError", when="method != 'mean' and method != 'median'")], ret=Arr2("real", "f4"))
+    c.ensure("tiles", "result.shape[0] == array.shape[0] // factors[0] and result.shape[1] == array.shape[1] // factors[1]")
+    c.ensure("values", "forall(a, 0, array.shape[0] // factors[0], forall(b, 0, array.shape[1] // factors[1], "
+                       "result[a, b] == ds2(method, arr(array), array.shape[1], factors[0], factors[1], a, b)))")
+    reg.add(c)
+    hdr = Obj("Header", file="sigpyproc/header.py",
+              fields={"nsamples": Int(0), "nchans": Int(1), "tsamp": Real(), "foff": Real(), "fch1": Real(), "tstart": Real(),
+                      "nbits": Int(), "dm": Real()})
+    blk = Obj("FilterbankBlock", file="sigpyproc/block.py", fields={"_data": Arr2("real", "f4"), "_header": hdr, "_dm": Real()})
+    c = Contract(BL + "FilterbankBlock.downsample", props=["C14", "C08"],
+                 params={"self": blk, "ffactor": Int(1), "tfactor": Int(1), "filter_method": Str()},
+                 cases={"filter_method": ["mean", "median"]},
+                 requires=["self._data.shape[0] == self._header.nchans and self._data.shape[1] == self._header.nsamples"],
+                 ret=blk)
+    c.ensure("tiles of the requested method",
+             "forall(a, 0, self._header.nchans // ffactor, forall(b, 0, self._header.nsamples // tfactor, "
+             "result._data[a, b] == ds2(filter_method, arr(self._data), self._data.shape[1], ffactor, tfactor, a, b)))")
+    c.ensure("header describes the result",
+             "result._header.nchans == self._header.nchans // ffactor and result._header.nsamples == self._header.nsamples // tfactor "
+             "and result._header.tsamp == self._header.tsamp * tfactor and result._header.foff == self._header.foff * ffactor "
+             "and result._data.shape[0] == result._header.nchans and result._data.shape[1] == result._header.nsamples")
+    reg.add(c)
+
+
+_r_sf2 = register
+
+
+def register(reg):  # noqa: F811
+    _r_sf2(reg)
+    register_block_downsample(reg)
